@@ -25,7 +25,12 @@ META = {
             "source); an unmap from the front path is kept as a refuted counter-model and a stream of front "
             "connections whose dial a live endpoint refuses exercises it. The registry key is the name itself (the key "
             "expression of every access of the endpoints map is read off the source and must be the name parameter; "
-            "names that differ are independent; a folded key used by some operations only is refuted).",
+            "names that differ are independent; a folded key used by some operations only is refuted). The "
+            "registration bracket: no statement stands between ServeBackName's call of upgrade and the defer that "
+            "calls unmap (read off the source), every way out of such a body on which the client was registered "
+            "runs the unmap, and an early return between the two is kept as a refuted counter-model; a stream with "
+            "a SideToken callback that answers ok or an error over time and endpoints with and without Siding reads "
+            "the registry and makes a front connection after every connection, also one the server refused.",
     "note": "Trusted: Coq kernel + vm_compute; translator gen/sni_rpc.go; harness/cmd/c15 + sniproxy/verif_rpc.go + "
             "verif_point.go (one schedule point after ep.serve()); sync.Mutex, the websocket upgrade and the "
             "background old.Close() are single abstract steps; the reason a serve loop ends is nondeterministic in "
@@ -441,7 +446,13 @@ def run(ck):
              "ClientHello) with an error (side mode with an application dialer that cannot reach the proxy for side "
              "connections; thorough also a full accept backlog with the 10 s accept timer): the name must still resolve to "
              "that endpoint, which still answers; one connect and no disconnect; a later front connection reaches its "
-             "Accept. A forced schedule is non-trivial if it has >= 2 "
+             "Accept; plus a token stream: rounds of 2-4 connections under one name, with and without the Siding option, "
+             "while ServerConfig.SideToken answers ok or an error as scripted (round 0: live plain endpoint, then a "
+             "Siding one while the token service fails, then a plain one); after every connection has settled -- accepted "
+             "or refused by the server -- the registry is read and a front connection is made (with the token service "
+             "up or down): an accepted connection is registered, a refused one is not, a front connection is served by "
+             "the live endpoint, closed when none is live or when a live Siding endpoint cannot get a token (which then "
+             "stays registered and answers), never left hanging. A forced schedule is non-trivial if it has >= 2 "
              "connects; also failed upgrades (plain HTTP request), side-websocket probes for an unknown session (upgraded iff "
              "the name resolves) and connections whose OnConnect / OnDisconnect callback panics; distinct = distinct (schedule, lookups after every step)",
         assumptions=["OnConnect/OnDisconnect are the user's callbacks; the session value is whatever OnConnect returns",
